@@ -95,6 +95,9 @@ func judgeC16B(c *vlib.Ctx, cs *Case, evs []Rec) (vs []verdict, ended bool, inco
 		}
 		moving := ans.InFlight > 0 || fin.Steps > ans.Steps
 		c.Count("answers_compared", 1)
+		if st.CmdTimeoutMs > 0 {
+			c.Count("answers_to_requests_with_a_timeout_shorter_than_the_slow_step", 1)
+		}
 		if moving {
 			c.Count("answers_while_device_moving", 1)
 		} else {
